@@ -10,36 +10,50 @@ from vlib import c09_core, c09_gen, c09_targets, mmgen, runner, sdk
 
 PID = "C09"
 RULE = (
-    "Hypothesis: accepted meta-model (vlib.mmgen + typed invariant grammar of vlib.invgen 'general' or the schema forms of "
-    "vlib.schemainv, invariant descriptions with quotes/backslashes/non-ASCII; per-target profile: 'ts' unrestricted with "
-    "adversarial enumeration values, 'java' without 2+ parents / lists of non-class items / len() of bytes, 'cpp' without "
-    "optional lists of primitives) -> Python SDK generated and imported (reference) -> corpus of JSON documents per model: "
-    "SDK-serialised boundary-biased instances (valid and invariant-violating; ints within +-(2^53-1), finite floats incl. "
-    "-0.0, 5e-324, 1.797e308; strings with astral characters, CR, quotes), the same document through every ancestor's "
-    "entry point, and single-site typed mutations (drop/null a property, unknown property, modelType unknown/of another "
-    "class/not a string/missing/wrong case/added, object<->array<->string<->number<->bool at every kind of site, 12 kinds "
-    "of malformed base64, unknown/mis-cased enumeration literal or literal name, int->fraction, int/float boundary values). "
-    "Every target generated from the same model is built (node 22 type stripping / javac + Jackson / g++ -std=c++17) and a "
-    "driver de-serialises each document through <Class>FromJsonable, re-serialises and verifies it. Oracle: same "
+    "Hypothesis: accepted meta-model (vlib.mmgen class DAGs, constrained primitives, enumerations, constants; typed invariant "
+    "grammar of vlib.invgen 'general' (2/3) or the schema forms of vlib.schemainv (1/3); invariant descriptions with quotes, "
+    "backslashes, non-ASCII, ${x}) drawn under a per-target profile: 'ts' unrestricted incl. adversarial enumeration values; "
+    "'java' = no 2+ parents, lists only of classes, no len() of bytes (generator refuses those: C02) and, to get behind the "
+    "recorded findings that the generated Java SDK does not compile, no int/float properties or constants, >=1 enumeration, "
+    ">=1 property per concrete class; 'cpp' = no optional lists of primitives (C02) and no concrete class with descendants, "
+    "no class without properties, <=1 list of constrained primitives per class; every 5th Java/C++ model is drawn without the "
+    "second group of restrictions ('javanum'/'cppraw') so that those findings stay visible. Per model: Python SDK generated "
+    "and imported (reference) -> corpus of JSON documents = SDK-serialised boundary-biased instances (valid and "
+    "invariant-violating; ints within +-(2^53-1), finite floats incl. -0.0, 5e-324, 1.797e308; strings with astral "
+    "characters, CR, quotes), the same document through an ancestor's entry point, and 4 single-site typed mutations per "
+    "instance (drop/null a property, unknown property, modelType unknown/of another class/not a string/missing/wrong "
+    "case/added, object<->array<->string<->number<->bool at every kind of site, 12 kinds of malformed base64, unknown/"
+    "mis-cased enumeration literal or literal name, int->fraction, int/float boundary values). Each target of the profile is "
+    "generated from the same model, built (node 22 type stripping / javac + Jackson / g++ -std=c++17 -O0) and a driver "
+    "de-serialises every document through the class's public entry point, re-serialises and verifies it. Oracle: same "
     "accept/reject verdict as the Python SDK's <cls>_from_jsonable; equal re-serialised JSON (parsed, numbers by value); "
     "equal MULTISET of (path as canonical property names/indices, message) of verification errors; equal constants, set "
-    "contents and enumeration literal (name, string) lists. Error order, refusal texts and path syntax are not compared. "
+    "contents and enumeration (literal name, string) lists. Error order, refusal texts and path syntax are not compared. "
     "Extended domain (ints beyond 2^53, 1e400, '5.0' for an int) is run and counted in classes 'ext:*' but not asserted. "
     "Non-trivial = document the Python SDK rejects or reports >=1 verification error on; distinct by (model, class, document). "
-    "quick: 64 models TypeScript of which 10 also Java and 6 also C++; thorough: 3000/400/250."
+    "quick: 64 models (all run TypeScript; 10 also Java, 6 also C++), 50 documents each; thorough: 3000/400/250 models, 120 "
+    "documents each."
 )
 ASSUMPTIONS = [
     "the Python SDK is the reference (its own faithfulness is C08/C10); a foreign exception of the Python SDK counts as 'refused'",
-    "entities are matched across languages by canonical name (lower case, underscores removed); models where two property "
-    "names coincide canonically are skipped and counted",
-    "X_from_jsonable of Python corresponds to xFromJsonable (TypeScript), Deserialize.deserializeIX or deserializeX (Java: "
-    "interface entry point if the class has descendants), <x>_from / dispatching <x>_from of C++ (types::IX)",
+    "entities are matched across languages by canonical name (lower case, underscores removed); models where two names "
+    "coincide canonically are skipped and counted",
+    "X_from_jsonable of Python corresponds to xFromJsonable (TypeScript), Jsonization.Deserialize.deserializeIX if it exists "
+    "else deserializeX (Java: the interface entry point dispatches like Python), jsonization::XFrom (C++)",
     "JSON numbers are compared by value: 100 == 100.0 and -0.0 == 0",
-    "a generated SDK that does not build or load is a violation of C09 (no verdict at all), bucketed <target>:sdk-does-not-*",
+    "Java prefixes every verification message with the constant 'Invariant violated:\\n'; the prefix is stripped before the "
+    "descriptions are compared (presentation, not content)",
+    "a generated SDK that does not build or load gives no verdict at all: counted as a violation of C09, bucketed "
+    "<target>:sdk-does-not-compile/-load:<first compiler error with the model's names blanked>",
     "models the target's generator refuses or crashes on are counted and skipped (C02)",
+    "U+2028/U+2029 in invariant descriptions are replaced before rendering: the generators' re-indentation splits literals "
+    "at Unicode line separators in every target including Python (C19), which would only show up here as noise",
     "known Python-SDK leniencies recorded under C10 (int accepts true/false; bad base64 raises binascii.Error or is "
-    "silently accepted; float rejects an integer literal) appear here as verdict differences with their own buckets",
-    "C# and Go are not covered (no toolchain); the property restricts itself to runnable targets",
+    "silently accepted; float rejects an integer literal) appear here as verdict differences with their own buckets "
+    "(listed in known_findings.jsonl under C09 with a reference to C10)",
+    "Java xmlization and C++ xmlization.cpp/visitation.cpp are not needed by the property: C++ does not compile them; "
+    "javac compiles the whole src/main tree (one compilation unit set)",
+    "C# and Go are not covered (no toolchain in the sandbox); the property restricts itself to runnable targets",
 ]
 
 QUICK = {"typescript": 64, "java": 10, "cpp": 6}
